@@ -56,9 +56,6 @@ def forestSys (rs : List (Option VExpr)) : System :=
 
 /-! ### Events of the replacement walk -/
 
-/-- `f"cse.{idx}"` -/
-def cseName (k : Nat) : String := "cse." ++ toString k
-
 inductive Ev where
   /-- an unknown axis `name`, `min_value` that is copied to the output -/
   | surv (n : String) (m : Nat)
@@ -192,6 +189,15 @@ def pairOK : Ev → Ev → Bool
 /-- **The side conditions of `cseTrees_preserves_sols_partial`** on the events of a run. -/
 def traceOK (evs : List Ev) : Bool :=
   evs.all usedOK && evs.all (fun a => evs.all (fun b => pairOK a b))
+
+/-! ### Side conditions of the order-independence theorem (C16) -/
+
+def candKeys (cands : List Cand) : List String := cands.map (·.key)
+
+/-- An exprlist (a list of node identities) belongs to one candidate only.  (Python: the key of the dict entry is
+computed from the nodes, so two entries cannot hold the same list of objects.) -/
+def uniqueIds (cands : List Cand) : Bool :=
+  cands.all (fun a => cands.all (fun b => a.occs.all (fun o => b.occs.all (fun o' => !(o.ids == o'.ids) || a.key == b.key))))
 
 /-- the events of `cseTrees opts roots` -/
 def cseEvents (opts : Opts) (roots : List (Option VExpr)) : List Ev :=
